@@ -240,7 +240,7 @@ def register(PROPS, COMPONENTS):
         names.append(cname)
     PROPS["C07"] = dict(
         lean_files=["ConcVerif/Props/C07.lean", "ConcVerif/Props/C07_lr.lean", "ConcVerif/Props/C07_tripwire.lean",
-                    "ConcVerif/Props/C07_deferred.lean", "ConcVerif/Props/C07_trigger.lean"],
+                    "ConcVerif/Props/C07_deferred.lean", "ConcVerif/Props/C07_trigger.lean", "ConcVerif/Props/C07_rcu.lean"],
         components=names, stage="B", pre=selftest_hb,
         level_text="Lean 4 theorems (kernel-checked; any number of threads, locations and events) over a generic event model of "
                    "mutex / shared-mutex / condition-variable / atomic (with the memory order written in the source) / plain / "
@@ -266,7 +266,19 @@ def register(PROPS, COMPONENTS):
                    "a queued task reaches the drainer through the queue mutex alone, for ANY orders of the pending flag; "
                    "TriggerVariable: a load of triggered/activated that sees a non-initial value reads from a store of that value "
                    "which happens-before it, so what the triggering thread did before trigger() is ordered before what the "
-                   "waiter does after the load that ended wait(). "
+                   "waiter does after the load that ended wait(); "
+                   "rcu_list / rcu_guarded (over every trace the rcu model accepts up to the start of the list destructor, for every "
+                   "assignment of memory orders with link / owner stores release, their loads acquire and the CAS on "
+                   "m_zombie_head acq_rel): (a) every access to a list node - atomic or plain, by an iterator, a writer or a "
+                   "reclaimer - happens-after the plain initialisation of the node (write mutex between writers, "
+                   "m_head/next store -> load for readers); (b) every access to a log record happens-after its plain "
+                   "initialisation and the CAS that pushed it (every successful CAS on m_zombie_head synchronises with every "
+                   "later one: the location is only written by RMWs; the relaxed load of m_zombie_head and the relaxed store of "
+                   "the new record's next carry no obligation); (c) the destruction and the deallocation of a node and of a log "
+                   "record by a handle release happen-after EVERY earlier access to it by any thread (owner.store(nullptr) -> the "
+                   "reclaimer's load of that owner: the happens-before content of the C05 grace period); (d) each of link store, "
+                   "link load, owner store, owner load shown necessary by a concrete accepted trace that races when it is relaxed, "
+                   "the CAS by a trace in which a scanner's atomic load of owner is no longer ordered after the record's construction. "
                    "Tied to the source on every run: the unmodified headers run against substituted std primitives (and the "
                    "plain-access tap) under a deterministic scheduler; every raw trace of every client is mapped to "
                    "happens-before events using the memory orders WRITTEN IN THE SOURCE and must pass the Lean checker, so a "
@@ -301,8 +313,15 @@ def register(PROPS, COMPONENTS):
                  "about the positions before the store / after the load)",
                  "covered through the checker on OBSERVED traces only (raceFree + its soundness, every run): deferred_guarded's "
                  "wrapped object, DualMappedVector/SearchableObjectHolder/DelayedObjects, the read->write half of "
-                 "the TripWire client data; rcu_list (RCU log, link stores) and cow_guarded: PLACEHOLDER - their models are "
-                 "being built on other branches, nothing model-level is claimed for them here",
+                 "the TripWire client data; cow_guarded: nothing model-level is claimed here",
+                 "rcu_list: the model-level theorems C07_rcu_* (publication of nodes and records, reclamation of nodes and records, "
+                 "necessity of the orders) are over traces that have not entered ~rcu_list: the destructor is ordered after every "
+                 "other use by the client (in the harness: the joins), as for any object, and its accesses are checked on the "
+                 "observed traces only (hb-rcu); the pairs not covered by (a)-(c) - two accesses of `deleted` by writers under the "
+                 "write mutex, an access after the destruction (excluded by C05/C13: ledger state) - are not restated as a single "
+                 "no-race theorem for the mapped trace; the seq_cst of the scan loads / of the CAS is also what makes the "
+                 "INTERLEAVING of C05 hold (a reader that registers after a scan has started is above the scanner's record), which "
+                 "the operational abstraction takes as given",
                  "lr_guarded: the theorem needs only release on the store of m_readingLeft and on the counter decrement and "
                  "acquire on the load of m_readingLeft and on the counter load; the seq_cst of the increment and of "
                  "m_countingLeft is needed for the INTERLEAVING (store-buffering pattern store rl; load cnt || inc cnt; load rl), "
